@@ -32,9 +32,10 @@ class Modes:
 
     # ---- mode-testing edges of a body: {edge_id: set of variants the edge admits}
     def mode_edges(self, body):
-        r = getattr(body, "_mode_edges", None)
-        if r is not None:
-            return r
+        cache = body.__dict__.setdefault("_mode_edges", {})
+        ck = tuple(sorted(self.mode_adts))
+        if ck in cache:
+            return cache[ck]
         r = {}
         for bb in C.switches(body):
             c = C.switch_cond(body, bb)
@@ -54,7 +55,7 @@ class Modes:
                             if is_ne:
                                 truth = not truth
                             r[eid] = {var} if truth else set(self.all - {var})
-        body._mode_edges = r
+        cache[ck] = r
         return r
 
     def local_modes(self, body, bb):
